@@ -235,6 +235,27 @@ def bounded_checks(tab, seed, tier):
             except Exception as e:  # noqa
                 ev_far += 1
                 rec(f_far, "far_raise", {"Z": [Z], "r": r}, {"raised": repr(e)}, "rho returns normally")
+    # -- (1c) one very large batch (more points than any internal block size one might introduce): every entry is evaluated
+    f_big, ev_big = [], 0
+    nbig = 2 ** 20 + 37
+    try:
+        pts = np.zeros((nbig, 3))
+        pts[:, 0] = np.linspace(0.5, 6.0, nbig)
+        pts[:, 1] = 0.25
+        d6 = PromoleculeDensity(([8, 1], [[0.0, 0.0, 0.0], [0.96, 0.0, 0.0]]))
+        big = np.asarray(d6.rho(pts))
+        idx = np.r_[0, 1, 2 ** 19, 2 ** 20 - 1, 2 ** 20, nbig - 3, nbig - 2, nbig - 1]
+        small = np.asarray(d6.rho(pts[idx]))
+        ev_big = len(idx)
+        if big.shape != (nbig,) or not np.allclose(big[idx], small, rtol=1e-6, atol=0) or not np.all(big > 0):
+            rec(f_big, "large_batch", {"points": nbig, "atoms": "O, H", "checked_rows": idx.tolist()}, {"batch": np.asarray(big)[idx].tolist() if big.shape == (nbig,) else list(big.shape),
+                "alone": small.tolist(), "non_positive_entries": int((big <= 0).sum()) if big.shape == (nbig,) else None},
+                "every entry of one large batch equals the density of that point evaluated on its own, and is positive")
+    except Exception as e:  # noqa
+        ev_big += 1
+        rec(f_big, "large_batch_raise", {"points": nbig}, {"raised": repr(e)[:200]}, "rho returns normally")
+    out.append(dict(ident="density.PromoleculeDensity.rho/bounded/large_batch", failures=f_big, evaluations=ev_big, distinct=ev_big,
+                    domain=f"one call with {nbig} points (2^20 + 37) on a line near an OH pair; first, middle, 2^20-th and last rows against their own evaluation", rule="rows compared"))
     out.append(dict(ident="density.PromoleculeDensity.rho/bounded/far_points", failures=f_far, evaluations=ev_far, distinct=ev_far,
                     domain="Z in {1, 6, 26, 79, 103}, one atom at the origin, points at 50 A .. 1e6 A along x; same relative tolerance", rule="distinct (element, distance) pairs"))
 
